@@ -1153,6 +1153,12 @@ namespace cds { namespace intrusive {
                         return true;
                     }
                 }
+                else if ( slot.bits() != 0 && iter.pointer()) {
+                    // the slot has been (or is being) split: the item, if it is still in the set, lives in a deeper array node
+                    value_type * pVal = iter.pointer();
+                    typename gc::Guard guard;
+                    return do_erase( hash_accessor()( *pVal ), guard, [pVal]( value_type const& item ) -> bool { return &item == pVal; } ) != nullptr;
+                }
                 else
                     return false;
             }
